@@ -278,6 +278,23 @@ def export_purity(prog, rep):
     rep.rules[rid]["floor"] = 20
 
 
+def split_independence(prog, rep):
+    """split on the exact array domain: parts share no memory with the source, for every memory layout and split dimension"""
+    from .. import wherecases as WH
+    rid = "C15.independent-result"
+    fn = prog.method("FlodymArray", "split")
+    bad = None
+    for job in WH.split_jobs(rep.tier):
+        case = WH.case_split_exact(prog, *job)
+        rep.evaluations += 1
+        for aspect, ok, msg, qual in case.verdicts:
+            rep.oblige(rid, ok, where=qual, what=str(case.inp), distinct=(rid, "split-exact", aspect, str(case.inp)))
+            if not ok and bad is None:
+                bad = (case.inp, msg)
+    if bad:
+        rep.add(Finding("C15", rid, fn.module, "FlodymArray.split", "def split(self, dim_letter)", f"split: {bad[1]}", line=fn.node.lineno, abstract_input=bad[0]))
+
+
 def run(prog, rep):
     rep.rule("C15.inputs-unchanged", "an operation that is not explicitly in place leaves every input exactly as it was")
     rep.rule("C15.independent-result", "results share no memory and no dimension list with any input")
@@ -288,6 +305,7 @@ def run(prog, rep):
     run_array_property(prog, rep, "C15", ["arith", "reduce", "index", "misc", "illformed", "producers", "stocks", "lifetime", "reduce@uniform", "index@uniform"], aspects)
     may_write(prog, rep)
     export_purity(prog, rep)
+    split_independence(prog, rep)
     rep.rules["C15.inputs-unchanged"]["floor"] = 2500
     rep.rules["C15.independent-result"]["floor"] = 1500
     if rep.exhaustive is None:
